@@ -16,13 +16,16 @@
     * `history_values`: whatever a call returns is the value of the cache-free denotation of that call;
     * `cached_call`: every call stops.
 
-  Not covered: *which* exception a raising cached call propagates and the absence of internal errors for graphs
-  with cache edges (for cache-free graphs see `CM.Props.C01`); the serializer round trip (trusted).  Where the
+    * `full_spec_along_history`: a raising call propagates a scheduled user exception or the error of the cache-free
+      denotation, never an internal failure of the machine; at most one user call per node.
+
+  Not covered: the serializer round trip (trusted).  Where the
   hypothesis fails on the real code the property fails: F3 (Python `==` on keys of RAM tables) and F10 (CheckIds is
   hash-transparent but decides whether a value exists) are the two known findings; `f10_in_model` shows F10 on the
   model.
 -/
 import CM.Proofs.CacheCorrect
+import CM.Proofs.CorrectC
 import CM.Proofs.Decode
 namespace CM.C04
 open CM
@@ -56,6 +59,14 @@ theorem transparent_along_history (F : Fam) (w : World) (h : Reach F w) (c : Cal
     (hrun : c.g.call c.env (prepare w c) fuel = some (.done x s, steps)) :
     ∃ v, x = .val v ∧ vden c.g (denCfgOf c.env (prepare w c)) = .ok v :=
   history_values F w h c fuel steps x s ok hc hF hrun
+
+/-- **Every history, the full specification**: value or exception of the cache-free denotation (or a scheduled user
+exception, propagated unchanged), never an internal failure, sound stores, at most one user call per node. -/
+theorem full_spec_along_history (F : Fam) (w : World) (h : Reach F w) (c : CallSpec) (fuel steps : Nat) (o : Outcome)
+    (ok : GraphOKC c.g) (hc : CallOK c.g c.env) (hF : F c.g (denCfgOf c.env (prepare w c)))
+    (hrun : c.g.call c.env (prepare w c) fuel = some (o, steps)) :
+    FullSpec F c.g (denCfgOf c.env (prepare w c)) (!(prepare w c).failAt.isEmpty) o :=
+  history_full F w h c fuel steps o ok hc hF hrun
 
 /-- **Unconditional for disk caches of plain pipelines.**  With the faithfulness of hashes proved (C05) instead of
 assumed: for every family of plain pipelines (no Silent arguments, no CheckIds) sharing empty disk stores, after
